@@ -8,7 +8,11 @@ SPEC = dict(
           "same order (environment kept); listing every residue equals no option; entries naming no residue, the order of the list "
           "and repeats are irrelevant. The census model is compared with the real groups under -i, and the four statements are "
           "evaluated on real runs (flags, reported set, full records and .pka text for 'all listed' and 'absent entries', "
-          "desolvation/backbone terms of listed groups unchanged by unlisting others).",
+          "desolvation/backbone terms of listed groups unchanged by unlisting others). The text of the option is modelled too (parse_res_string / parse_res_list): "
+          "an entry chain:number is read as (chain, number, blank), chain:numberX as (chain, number, X) when the text after the colon is "
+          "a number only without its last character, anything without exactly one colon is rejected, and the list is read entry by "
+          "entry (entry_plain, entry_icode, entry_no_colon, list_is_mapM); the model is compared with lib.parse_res_list on generated "
+          "well-formed and malformed texts.",
     note="The census model is trace-driven for bond-derived inputs. That unlisted residues still desolvate and hydrogen-bond is checked "
          "on the real pipeline (desolvation and backbone terms of listed groups are identical to the run without the option; side-chain "
          "partners keep appearing), not proved end-to-end. A blank chain is addressed as '_' (Atom.chain_id), not ' '.",
@@ -57,8 +61,62 @@ def gen_inputs(ctx):
     return out
 
 
+def option_text_family(ctx):
+    """the text of --titrate_only through the real parse_res_list and through the Lean model; the real option parser is also
+    checked end to end (loadOptions gives the keys init_group compares with)"""
+    import argparse
+    from propka.lib import parse_res_list, loadOptions
+    rnd = ctx.rng
+    reqs, reals, bad = [], [], []
+    chains = ["A", "B", "E", "I", "a", "2", "", " ", "AB"]
+    for _ in range(300 if ctx.quick() else 6000):
+        parts, want = [], []
+        ok = True
+        for _ in range(rnd.randint(1, 5)):
+            kind = rnd.randrange(10)
+            ch = rnd.choice(chains)
+            n = rnd.choice([rnd.randint(-999, 9999), 0, 17, -5])
+            ic = rnd.choice([" ", " ", "A", "B", "x", "P"])
+            if kind < 7:
+                parts.append("%s:%d%s" % (ch, n, "" if ic == " " else ic))
+                want.append((ch, n, ic))
+            else:
+                parts.append(rnd.choice(["E17", "E:", ":", "E:1:2", "E:A", "E:1AB", "E:--1", "", "E:1 ", "E: 7", "E:+3", "E:1.5", "E:７"]))
+                ok = False
+        text = ",".join(parts)
+        try:
+            got = parse_res_list(text)
+            real = ";".join("%s|%d|%s" % (c.encode("utf8").hex(), n, i.encode("utf8").hex()) for c, n, i in got) or "-"
+        except argparse.ArgumentTypeError as e:
+            got = None
+            real = "err:colons" if "colon" in str(e) else "err:number"
+        ctx.case(key=("reslist", text), nontrivial=got is not None)
+        if ok and got != want:
+            bad.append((text, got, want))
+        if all(ord(c) < 128 for c in text) and "_" not in text:
+            reqs.append("reslist parse " + (text.encode("ascii").hex() or "00"[:0]))
+            reals.append(real)
+    # end to end: the namespace loadOptions returns carries the parsed keys
+    for text, want in (("E:17,E:48A", [("E", 17, " "), ("E", 48, "A")]), ("I:-5", [("I", -5, " ")])):
+        o = loadOptions(["-i", text, "x.pdb"])
+        if o.titrate_only != want:
+            bad.append((text, o.titrate_only, want))
+    for b in bad[:2]:
+        ctx.violate("titrate-only-text", "--titrate_only %r is read as %r, written keys %r" % b, dict(option=b[0], got=str(b[1]), expected=str(b[2])))
+    ctx.oblige("spec: well-formed --titrate_only texts are read as the keys they spell (%d texts)" % len(reqs), not bad, str(bad[:1]))
+    if ctx.driver_ok:
+        reqs2 = [q for q in reqs if q != "reslist parse "]
+        reals2 = [r for q, r in zip(reqs, reals) if q != "reslist parse "]
+        outs = common.driver_batch(reqs2)
+        dis = [(bytes.fromhex(q.split(" ")[2]).decode(), r, m) for q, r, m in zip(reqs2, reals2, outs) if r != m]
+        ctx.oblige("correspondence: Lean parse_res_list model = lib.parse_res_list (keys or kind of error; %d texts)" % len(reqs2), not dis, str(dis[:2]))
+    else:
+        ctx.oblige("correspondence: parse_res_list model = real code", False, "driver not built")
+
+
 def run(ctx):
     rnd = ctx.rng
+    option_text_family(ctx)
     bad_exact, bad_all, bad_absent, bad_env = [], [], [], []
     creqs, creals = [], []
     for name, text in gen_inputs(ctx):
